@@ -6,6 +6,11 @@
 #include <stdlib.h>
 typedef unsigned char* P;
 typedef void (*FP)(void);
+/* LLVM bitcast between an integer and a floating-point value of the same width: same bits, other interpretation */
+static inline double vf_bits_double(uint64_t b) { union { uint64_t i; double d; } u; u.i = b; return u.d; }
+static inline uint64_t vf_bits_uint64_t(double d) { union { uint64_t i; double d; } u; u.d = d; return u.i; }
+static inline float vf_bits_float(uint32_t b) { union { uint32_t i; float f; } u; u.i = b; return u.f; }
+static inline uint32_t vf_bits_uint32_t(float f) { union { uint32_t i; float f; } u; u.f = f; return u.i; }
 #ifdef __CPROVER__
 #define __vf_assume_nonnull(p) __CPROVER_assume((p)!=0)
 #define VF_ASSERT(c, id) __CPROVER_assert((c), id)
